@@ -242,9 +242,28 @@ Theorem c01_grid_positions :
 Proof. split; [exact at_pos_of_rep|]. split; [exact at_pos_inj|]. split; [exact parent_of_leaf_at|exact at_pos_disjoint]. Qed.
 Print Assumptions c01_grid_positions.
 
+(** VertexNeighbors (hand model Model/CellIDNbr.v, compared with Go on every run), same-face part:
+    when the vertex of the level-`level` ancestor chosen by the bits of the cell's leaf (i,j) is interior
+    to the face, the four entries are the ancestor (which contains c) and the three cells of that level
+    around the vertex: valid, of the requested level, pairwise distinct, at the stated grid positions (closed).
+    TODO: that the chosen vertex is the one closest to c (bit 30-level-1 of i,j <-> quadrant), the
+    3-entry case at cube corners and cross-face entries (H-WRAP) — [S] complete-set oracle on every run. *)
+Theorem c01_vertex_neighbors_same_face : forall c f l a b level, at_pos c f l a b -> 0 <= level < l ->
+  exists i j o, s2_CellID_faceIJOrientation c = (f, i, j, o) /\
+  let A := i / 2 ^ (30 - level) in let B := j / 2 ^ (30 - level) in
+  let di := if negb (Z.land i (2 ^ (30 - (level + 1))) =? 0) then 1 else -1 in
+  let dj := if negb (Z.land j (2 ^ (30 - (level + 1))) =? 0) then 1 else -1 in
+  0 <= A + di < 2 ^ level -> 0 <= B + dj < 2 ^ level ->
+  exists n0 n1 n2 n3, VertexNeighbors c level = [n0; n1; n2; n3] /\
+    n0 = s2_CellID_Parent c level /\ s2_CellID_Contains n0 c = true /\
+    at_pos n0 f level A B /\ at_pos n1 f level (A + di) B /\ at_pos n2 f level A (B + dj) /\
+    at_pos n3 f level (A + di) (B + dj) /\ NoDup [n0; n1; n2; n3].
+Proof. exact VertexNeighbors_same_face. Qed.
+Print Assumptions c01_vertex_neighbors_same_face.
+
 (** AllNeighbors (hand model Model/CellIDNbr.v, compared with Go on every run): the loop terminates
     with the documented 4 * (size / nbrSize) + 4 entries, for every valid cell and level >= its level.
-    TODO (not closed): per-entry statement for VertexNeighbors/AllNeighbors (each same-face entry is
+    TODO (not closed): per-entry statement for AllNeighbors (each same-face entry is
     Parent (cellIDFromFaceIJ f i' j') level, hence by c01_grid_positions a valid cell of the requested
     level at position (i'/nbrSize, j'/nbrSize), disjoint from c and touching it — the arithmetic on
     the loop's coordinates is what is missing); checked by [S] (complete-set oracle) on every run. *)
